@@ -619,10 +619,16 @@ def describe(world, stream, upto=None):
 VAL_CONSTS = 'CONSTANT Variant = "ok"\n'
 
 
-def validate_streams(ctx, cases, mode, tag, sig_prefix=None, timeout=3000, alternate_rnd=None):
+def validate_streams(ctx, cases, mode, tag, sig_prefix=None, timeout=3000, alternate_rnd=None, own=None, baseline=None,
+                     baseline_rejected=(), report=True):
     """cases: list of (oid, world, stream).  Runs the code, validates by Pairing_Val, records violations.
     Returns dict oid -> Execution.  With alternate_rnd, consecutive cases of the SAME world (same thread ids, same
-    codes) run on separate parser objects that are fed alternately: each must still behave as the spec says alone."""
+    codes) run on separate parser objects that are fed alternately: each must still behave as the spec says alone.
+    own(clause, cls) -> bool: which deviations from Pairing belong to the property that is being checked - Pairing_Val
+    compares EVERYTHING (windows: C04, texts: C08, composite fields: C20, ...), a check reports what ITS statement pins
+    and counts the rest as 'foreign' (the other property's check reports it).
+    baseline: oid -> [oids of the same programs run another way (each thread alone)]: a deviation is reported only when
+    none of the baseline runs deviates (a RELATIONAL property: results do not depend on the interleaving)."""
     from .tlc import validate_observations
     sig_prefix = sig_prefix or ctx.prop
     obs = []
@@ -645,11 +651,21 @@ def validate_streams(ctx, cases, mode, tag, sig_prefix=None, timeout=3000, alter
         i = j
     nv, rej, _ = validate_observations('Pairing_Val', obs, ctx.workdir, name=tag, consts=VAL_CONSTS, timeout=timeout)
     ctx.traces += nv
+    rejected = {oid for oid, _ in rej} | set(baseline_rejected)
+    ctx.last_rejected = {oid for oid, _ in rej}
+    if not report:
+        return execs
     for oid, clause in rej:
         w, stream, ex = by_id[oid]
         cl, _, at = clause.partition('@')
         k = int(at) if at else 0
         a = stream[k - 1] if k else None
+        if baseline is not None and (oid not in baseline or any(b in rejected for b in baseline[oid])):
+            ctx.extra['deviations_left_to_other_checks'] = ctx.extra.get('deviations_left_to_other_checks', 0) + 1
+            continue
+        if own is not None and not own(cl, a.abs['cls'] if a else '?'):
+            ctx.extra['deviations_left_to_other_checks'] = ctx.extra.get('deviations_left_to_other_checks', 0) + 1
+            continue
         name = (a.name or hex(a.debugid)) if a else None
         sig = '%s/%s@%s' % (sig_prefix, cl, name if cl == 'raised' else (a.abs['cls'] if a else '?'))
         got = ex.steps[k - 1] if 0 < k <= len(ex.steps) else None
